@@ -1,6 +1,7 @@
 import PppModel.Props.C14
 import PppModel.Props.C11
 import PppModel.Lemmas.Builder
+import PppModel.Props.C10
 
 /-!
 # C13 — re-encoding a parsed v2 header from its parts reproduces it byte for byte
@@ -144,6 +145,41 @@ theorem rebuild_from_addresses {x : B} {h : Header} (hp : V2.parse x = .ok h)
   · have := shape_withAddresses (Spec.V2.versionCommand h.command) h.protocol h.addresses
     rwa [afpByte_eq_spec] at this
   · simp [opPayloads, encAll, enc]
+
+/-- **C13 (raw, one batch).** The same parts handed over as a single batch — the
+first and only write of a fresh builder. -/
+theorem rebuild_raw_batched {x : B} {h : Header} (hp : V2.parse x = .ok h) :
+    (Builder.new (byteAt h.header 12) (byteAt h.header 13)).run
+      [.writePayloads [.slice h.addressBytes, .slice h.tlvBytes]] = some h.header := by
+  have := (rebuild_raw hp).1
+  have hb := C10.batch_irrelevant (byteAt h.header 12) (byteAt h.header 13) [] []
+    [.slice h.addressBytes, .slice h.tlvBytes]
+  simp only [List.nil_append, List.map_cons, List.map_nil, List.append_nil] at hb
+  rw [hb]; exact this
+
+/-- **C13 (decoded addresses and items, one batch).** -/
+theorem rebuild_from_addresses_items {x : B} {h : Header} (hp : V2.parse x = .ok h)
+    (hfam : h.addressFamily ≠ .unspec) (hwf : ∀ it ∈ h.tlvs, Spec.Tlv.isErr it = false) :
+    (Builder.withAddresses (vcByte h.version h.command) h.protocol h.addresses).run
+      [.writePayloads (itemPayloads h.tlvs)] = some h.header := by
+  obtain ⟨rest, hle, he⟩ := C14.accepted_is_encoding hp
+  obtain ⟨-, -, -, h4⟩ := views_of_encode h.command h.protocol h.addresses rest
+  rw [← he] at h4
+  have hfam' : h.addresses.family ≠ .unspec := hfam
+  rw [if_neg hfam'] at h4
+  have hhdr : h.header = Spec.V2.encode h.command h.protocol h.addresses rest := by
+    conv => lhs; rw [he]
+    rfl
+  have hv : h.version = .two := by cases h.version; rfl
+  have htile : Spec.Tlv.okBytes h.tlvs = h.tlvBytes := (C11.tiling_complete_iff h.tlvBytes).mpr hwf
+  have hvals : ∀ it ∈ h.tlvs, ∀ t, it = .ok t → t.value.length ≤ 65535 := by
+    rw [C11.header_tlvs_eq_walk]; exact walk_values_le _ _
+  rw [hv, vc_eq_spec, hhdr]
+  refine rebuild_core h.command h.protocol h.addresses rest hle ?_ _ rest ?_ rfl rfl
+  · have := shape_withAddresses (Spec.V2.versionCommand h.command) h.protocol h.addresses
+    rwa [afpByte_eq_spec] at this
+  · simp only [List.flatMap_cons, List.flatMap_nil, opPayloads, List.append_nil,
+      encAll_itemPayloads h.tlvs hvals, htile, h4]
 
 /-- Non-vacuity: an accepted IPv4 header with a well-formed section rebuilds. -/
 example :
